@@ -122,6 +122,8 @@ class World:
         in_class = getattr(fr, "is_class_body", False)
         in_func = fr.func is not None
         qual = f"{fr.qual}.{node.name}" if hasattr(fr, "qual") else f"{fr.func.qualname}.{node.name}"
+        if any(isinstance(d, ast.Attribute) and d.attr == "setter" for d in node.decorator_list):
+            qual += ".setter"
         module = fr.globals.get("__name__")
         f = FuncVal(node, qual, module, fr if in_func else None, defaults, kwdefaults, None)
         if in_class:
